@@ -171,8 +171,11 @@ func (c *c09Case) proj() {
 			fmt.Fprintf(&sb, " %d %d", app, h.CurrentOffset)
 		}
 	} else {
-		h, _ := a.NewliqKeeper.GetLiquidationOffsetHolder(ctx, liqv2types.VaultLiquidationsOffsetPrefix, 0)
-		fmt.Fprintf(&sb, " 1 0 %d", h.CurrentOffset)
+		// liquidationsV2.Liquidate: LiquidateVaults(ctx, 0) and LiquidateBorrows(ctx, 1) each keep their
+		// offset under their own key (absent key = offset 0)
+		h0, _ := a.NewliqKeeper.GetLiquidationOffsetHolder(ctx, liqv2types.VaultLiquidationsOffsetPrefix, 0)
+		h1, _ := a.NewliqKeeper.GetLiquidationOffsetHolder(ctx, liqv2types.VaultLiquidationsOffsetPrefix, 1)
+		fmt.Fprintf(&sb, " 2 0 %d 1 %d", h0.CurrentOffset, h1.CurrentOffset)
 	}
 	fmt.Fprintf(&sb, " %d", len(vs))
 	for _, v := range vs {
@@ -540,6 +543,7 @@ func TestC09(t *testing.T) {
 		func(ci int) { c09Witness(w, tr, ci, c09GenV2) },
 		func(ci int) { c09FallingMarket(w, tr, ci, c09GenV1) },
 		func(ci int) { c09FallingMarket(w, tr, ci, c09GenV2) },
+		func(ci int) { c09V2OffsetRegression(w, tr, ci) },
 	}
 	for _, f := range directed {
 		if only < 0 || only == ci {
@@ -586,6 +590,25 @@ func c09FallingMarket(w *c09World, tr *tracer, ci int, gen int) {
 		if p, ok := sched[b]; ok {
 			c.setPrice(w.collA, p, true)
 		}
+		if !c.block() {
+			return
+		}
+	}
+}
+
+// regression of the repaired finding C09-F2 (Properties/C09.v Example c09_v2_starved_served): 2 vaults,
+// batch 1, the second one unsafe, no borrows.  The borrow sweep used to store ITS offset (0) under the
+// vault sweep's key in every block, so the vault window never left index 0 and vault 2 was never
+// seized; with the borrow sweep on its own key the second block seizes it.
+func c09V2OffsetRegression(w *c09World, tr *tracer, ci int) {
+	c := c09NewCase(w, tr, ci, "regress-v2-offset", c09GenV2, []uint64{w.app1}, 1)
+	for _, cr := range []int64{3000, 1600} {
+		in, out := w.c09Amounts(0, 1, cr)
+		c.create(0, in, out)
+	}
+	c.setPrice(w.collA, 1800000, true)
+	// 8 blocks > live_bound 2 0 1 = 6: a vault left unseized is a predicate failure outside every class
+	for b := 0; b < 8; b++ {
 		if !c.block() {
 			return
 		}
